@@ -3552,3 +3552,369 @@ func runR167(c *Ctx) {
 		c.Fail(FuncName(try), "retry-whole", c.Pos(try.Pos()), "tryRepeatedly is never used")
 	}
 }
+
+// ---------------------------------------------------------------------------
+// R19.8, R19.9, R20.7, R20.8, R20.9
+
+func init() {
+	register(&Rule{
+		ID: "R19.8", Props: []string{"C19"}, Engine: "flow (constructor wiring, configuration package)",
+		Text: "each demultiplexed backend is known by the prefix it is registered under: in the configuration of the demultiplexing backend the name stored for a backend (which FindMissing uses to partition digests per backend) is String() of the very prefix given to the trie's Set in the same iteration, that same prefix is the match side of the backend's InstanceNamePatcher, and the index stored in the trie is the position the backend is appended at",
+		Floor: 3, MustExist: true, Run: runR198,
+	})
+	register(&Rule{
+		ID: "R19.9", Props: []string{"C19"}, Engine: "sibling agreement (SSA, per block)",
+		Text: "the hierarchical fallback walks parent and child up together: in hierarchicalInstanceNamesGetFromCompositeErrorHandler.OnError every shortening of parentDigests is accompanied, in the same basic block, by the same shortening of childDigests, and the digests handed to the next GetFromComposite are the last elements of the two lists",
+		Floor: 2, MustExist: true, Run: runR199,
+	})
+	register(&Rule{
+		ID: "R20.7", Props: []string{"C20", "C10"}, Engine: "provenance of slice bounds (SSA)",
+		Text: "the key without instance name is the packed digest up to the end of its size: in Digest.GetKey the KeyWithoutInstance result is a prefix of the value (it starts at 0, so that the digest function is part of the key) whose end is exactly the size-end position reported by unpack() – not one further, which would include the separator and make it equal to the instance-aware key of the empty instance name",
+		Floor: 1, MustExist: true, Run: runR207,
+	})
+	register(&Rule{
+		ID: "R20.8", Props: []string{"C20", "C19"}, Engine: "who-may-parse (SSA)",
+		Text: "the packed representation of a Digest is parsed in one place: no function of pkg/digest other than Digest.unpack searches or splits a Digest's value string (strings.Index*, LastIndex*, Split*, Cut, Fields*) – instance names may contain every character the packed form uses as a separator, so only the length-driven walk of unpack finds the boundaries",
+		Floor: 1, MustExist: false, Run: runR208,
+	})
+	register(&Rule{
+		ID: "R20.9", Props: []string{"C20"}, Engine: "guard (SSA dominance)",
+		Text: "set filtering looks at every element, and unknown digest functions are rejected: in Set.RemoveEmptyBlob an element is appended to the result individually only under its own GetSizeBytes() != 0 test, and the only range copied in bulk is the prefix before the first empty element; in getBareFunction every non-nil result is returned on the true edge of an equality test of the digest function with one specific enum value (length-based inference only for UNKNOWN)",
+		Floor: 8, MustExist: true, Run: runR209,
+	})
+}
+
+func runR198(c *Ctx) {
+	bare := c.Method(configurationRel, "simpleNestedBlobAccessCreator", "newNestedBlobAccessBare")
+	if bare == nil {
+		c.Broken("newNestedBlobAccessBare not found")
+		return
+	}
+	name := FuncName(bare)
+	var set *ssa.Call
+	allInstrs(bare, func(ins ssa.Instruction) {
+		if cl, ok := ins.(*ssa.Call); ok {
+			if o := calleeObjOf(cl.Common()); o != nil && o.Name() == "Set" {
+				if nt := recvNamed(o); nt != nil && nt.Obj().Name() == "InstanceNameTrie" {
+					set = cl
+				}
+			}
+		}
+	})
+	if set == nil {
+		c.Fail(name, "demux-wiring", c.Pos(bare.Pos()), "no InstanceNameTrie.Set call found in the configuration of the demultiplexing backend")
+		return
+	}
+	prefix := set.Call.Args[1]
+	// the element appended in the same block region: composite literal with backendName / instanceNamePatcher
+	var lit map[string]ssa.Value
+	var app *ssa.Call
+	allInstrs(bare, func(ins ssa.Instruction) {
+		cl, ok := ins.(*ssa.Call)
+		if !ok {
+			return
+		}
+		if _, isApp := isAppend(cl); !isApp {
+			return
+		}
+		fs := literalStores(bare, cl.Call.Args[1])
+		if _, has := fs["backendName"]; has {
+			lit, app = fs, cl
+		}
+	})
+	if lit == nil {
+		c.Fail(name, "demux-wiring", c.Pos(set.Pos()), "the per-backend record (backend, name, patcher) is not built next to the trie registration")
+		return
+	}
+	// name = prefix.String()
+	okName := false
+	if nc, ok := stripConv(lit["backendName"]).(*ssa.Call); ok {
+		if o := calleeObjOf(nc.Common()); o != nil && o.Name() == "String" && len(nc.Call.Args) > 0 && (nc.Call.Args[0] == prefix || sameSource(nc.Call.Args[0], prefix)) {
+			okName = true
+		}
+	}
+	c.Check(okName, name, "demux-name", c.Pos(app.Pos()), "a backend is named after the prefix it is registered under", "the name stored for a demultiplexed backend is not String() of the prefix it is registered under in the trie: two backends can end up with the same name, and FindMissing – which groups digests by that name – sends the digests of both to one of them and rewrites the answer with the wrong prefixes")
+	// patcher(match = prefix, …)
+	okPatch := false
+	if pc, ok := stripConv(lit["instanceNamePatcher"]).(*ssa.Call); ok {
+		if sc := pc.Call.StaticCallee(); sc != nil && sc.Name() == "NewInstanceNamePatcher" && (pc.Call.Args[0] == prefix || sameSource(pc.Call.Args[0], prefix)) && pc.Call.Args[1] != prefix {
+			okPatch = true
+		}
+	}
+	c.Check(okPatch, name, "demux-patcher", c.Pos(app.Pos()), "the patcher strips the registered prefix", "the backend's InstanceNamePatcher is not built with the registered prefix as the prefix to strip")
+	// index = len(backends) of the list appended to
+	okIdx := false
+	if lc, ok := stripConv(set.Call.Args[2]).(*ssa.Call); ok {
+		if bi, ok := lc.Call.Value.(*ssa.Builtin); ok && bi.Name() == "len" && (lc.Call.Args[0] == app.Call.Args[0] || sameSource(lc.Call.Args[0], app.Call.Args[0])) {
+			okIdx = instrDominates(set, app) && set.Block() == app.Block()
+		}
+	}
+	c.Check(okIdx, name, "demux-index", c.Pos(set.Pos()), "the trie stores the position the backend is appended at", "the index registered in the trie is not the position at which the backend is appended right afterwards")
+}
+
+func runR199(c *Ctx) {
+	fn := c.Method("pkg/blobstore", "hierarchicalInstanceNamesGetFromCompositeErrorHandler", "OnError")
+	if fn == nil {
+		c.Broken("hierarchicalInstanceNamesGetFromCompositeErrorHandler.OnError not found")
+		return
+	}
+	name := FuncName(fn)
+	shrinkOf := func(st *ssa.Store) string {
+		f := fieldOf(st.Addr)
+		if f == nil {
+			return ""
+		}
+		sl, ok := st.Val.(*ssa.Slice)
+		if !ok || sl.High == nil {
+			return ""
+		}
+		if lf, _ := loadedField(sl.X); lf != f {
+			return ""
+		}
+		return f.Name()
+	}
+	perBlock := map[*ssa.BasicBlock]map[string]bool{}
+	allInstrs(fn, func(ins ssa.Instruction) {
+		if st, ok := ins.(*ssa.Store); ok {
+			if n := shrinkOf(st); n != "" {
+				if perBlock[st.Block()] == nil {
+					perBlock[st.Block()] = map[string]bool{}
+				}
+				perBlock[st.Block()][n] = true
+			}
+		}
+	})
+	n := 0
+	for b, m := range perBlock {
+		if !m["parentDigests"] && !m["childDigests"] {
+			continue
+		}
+		n++
+		c.Check(m["parentDigests"] && m["childDigests"], name, "lock-step", c.Pos(b.Instrs[0].Pos()), "parent and child lists shrink together", "only one of parentDigests / childDigests is shortened when falling back to the parent instance name: the next attempt asks the ancestor's backend for the parent under the ancestor's name but for the child under the original name, so a child stored under the ancestor is never found")
+	}
+	if n == 0 {
+		c.Fail(name, "lock-step", c.Pos(fn.Pos()), "the fallback never moves to a parent instance name")
+	}
+	// the next attempt uses the last elements of both lists
+	okArgs := false
+	allInstrs(fn, func(ins ssa.Instruction) {
+		cl, ok := ins.(*ssa.Call)
+		if !ok || !cl.Call.IsInvoke() || cl.Call.Method.Name() != "GetFromComposite" {
+			return
+		}
+		last := func(v ssa.Value, field string) bool {
+			u, ok := v.(*ssa.UnOp)
+			if !ok {
+				return false
+			}
+			ia, ok := u.X.(*ssa.IndexAddr)
+			if !ok {
+				return false
+			}
+			f, _ := loadedField(ia.X)
+			if f == nil || f.Name() != field {
+				return false
+			}
+			bo, ok := ia.Index.(*ssa.BinOp)
+			return ok && bo.Op == token.SUB && isLenOfField(bo.X, field)
+		}
+		if last(cl.Call.Args[1], "parentDigests") && last(cl.Call.Args[2], "childDigests") {
+			okArgs = true
+		}
+	})
+	c.Check(okArgs, name, "next-attempt", c.Pos(fn.Pos()), "the next attempt uses the last parent and the last child digest", "the fallback GetFromComposite is not given the last element of parentDigests and the last element of childDigests")
+}
+
+func runR207(c *Ctx) {
+	fn := c.Method(digestRel, "Digest", "GetKey")
+	unpack := c.Method(digestRel, "Digest", "unpack")
+	if fn == nil || unpack == nil {
+		c.Broken("Digest.GetKey / Digest.unpack not found")
+		return
+	}
+	name := FuncName(fn)
+	// returns on the KeyWithoutInstance edge: those whose value is a Slice of the value field
+	n := 0
+	for _, r := range returnsOf(fn) {
+		sl, ok := stripConv(r.Results[0]).(*ssa.Slice)
+		if !ok {
+			continue
+		}
+		if f := fieldOf(sl.X); f == nil || f.Name() != "value" {
+			continue
+		}
+		n++
+		fromStart := sl.Low == nil
+		if k, isK := constInt(sl.Low); sl.Low != nil && isK && k == 0 {
+			fromStart = true
+		}
+		endOK := false
+		if sl.High != nil {
+			if ex, isEx := stripConv(sl.High).(*ssa.Extract); isEx && ex.Index == 4 {
+				if uc, isC := ex.Tuple.(*ssa.Call); isC && uc.Call.StaticCallee() == unpack {
+					endOK = true
+				}
+			}
+		}
+		why := ""
+		switch {
+		case !fromStart:
+			why = "the key without instance name does not start at the beginning of the packed value: the digest function is no longer part of the key, so digests of different functions with the same hash and size share one key"
+		case !endOK:
+			why = "the key without instance name does not end exactly at the size-end position reported by unpack(): it includes the separator (and equals the instance-aware key of the empty instance name) or cuts into the size"
+		}
+		c.Check(why == "", name, "key-without-instance", c.Pos(r.Pos()), "value[:sizeEnd]", why)
+	}
+	if n == 0 {
+		c.Fail(name, "key-without-instance", c.Pos(fn.Pos()), "GetKey no longer derives the instance-less key as a prefix of the packed value; the rule cannot establish what the key contains")
+	}
+}
+
+func runR208(c *Ctx) {
+	digT := c.LookupType(digestRel, "Digest")
+	if digT == nil {
+		c.Broken("digest.Digest not found")
+		return
+	}
+	searchers := map[string]bool{"Index": true, "IndexByte": true, "IndexRune": true, "IndexAny": true, "LastIndex": true, "LastIndexByte": true, "LastIndexAny": true, "Split": true, "SplitN": true, "SplitAfter": true, "Cut": true, "Fields": true, "FieldsFunc": true, "Contains": true, "ContainsRune": true, "TrimPrefix": true, "TrimSuffix": true, "HasSuffix": true}
+	for _, tf := range c.pkgFuncs(digestRel) {
+		withAnon(tf, func(g *ssa.Function) {
+			if topFunc(g).Name() == "unpack" {
+				return
+			}
+			allInstrs(g, func(ins ssa.Instruction) {
+				cl, ok := ins.(*ssa.Call)
+				if !ok {
+					return
+				}
+				o := calleeObjOf(cl.Common())
+				if o == nil || o.Pkg() == nil || (o.Pkg().Path() != "strings" && o.Pkg().Path() != "bytes") || !searchers[o.Name()] {
+					return
+				}
+				// does an argument derive from a Digest's value field?
+				fromDigest := false
+				for _, a := range cl.Call.Args {
+					deepSlice(g, a, func(x ssa.Value) bool {
+						if f := fieldOf(x); f != nil && f.Name() == "value" {
+							var bt types.Type
+							switch y := x.(type) {
+							case *ssa.Field:
+								bt = y.X.Type()
+							case *ssa.UnOp:
+								if fa, ok := y.X.(*ssa.FieldAddr); ok {
+									bt = fa.X.Type().Underlying().(*types.Pointer).Elem()
+								}
+							case *ssa.FieldAddr:
+								bt = y.X.Type().Underlying().(*types.Pointer).Elem()
+							}
+							if bt != nil && types.Identical(bt, digT) {
+								fromDigest = true
+							}
+						}
+						return !fromDigest
+					})
+				}
+				if fromDigest {
+					c.Fail(FuncName(g), "single-parser", c.Pos(cl.Pos()), "the packed value of a Digest is searched with "+o.Pkg().Name()+"."+o.Name()+" outside unpack(): the characters that separate function, hash and size may also occur in instance names, so the boundary found is wrong for such names (patching and keys then cut the instance name in the middle)")
+				}
+			})
+		})
+	}
+	c.PassTrivial("pkg/digest", "single-parser", "-", "examined every strings/bytes search call of the package")
+}
+
+func runR209(c *Ctx) {
+	// (a) RemoveEmptyBlob
+	if fn := c.Method(digestRel, "Set", "RemoveEmptyBlob"); fn == nil {
+		c.Broken("Set.RemoveEmptyBlob not found")
+	} else {
+		name := FuncName(fn)
+		n := 0
+		allInstrs(fn, func(ins ssa.Instruction) {
+			cl, ok := ins.(*ssa.Call)
+			if !ok {
+				return
+			}
+			if _, isApp := isAppend(cl); !isApp {
+				return
+			}
+			n++
+			arg := cl.Call.Args[1]
+			// spread of a re-slice of the set's own storage: only the prefix up to the index of the first hit
+			if sl, ok := arg.(*ssa.Slice); ok {
+				if _, isAlloc := sl.X.(*ssa.Alloc); !isAlloc {
+					okPrefix := false
+					if f := fieldOf(sl.X); f != nil && f.Name() == "digests" && (sl.Low == nil) && sl.High != nil {
+						// High is the index of an enclosing range over the same storage
+						if hdr := rangeIndexHeader(sl.High); hdr != nil || isRangeKey(sl.High) {
+							okPrefix = true
+						}
+					}
+					c.Check(okPrefix, name, "filter-each", c.Pos(cl.Pos()), "only the prefix before the first empty element is copied in bulk", "a range of the set other than the prefix before the first empty element is copied into the result without testing its elements: empty blobs that are not adjacent in sort order (several digest functions, non-canonical hashes) stay in the set")
+					return
+				}
+			}
+			// a single element: must be under its own size test
+			// the single element: the value stored into the variadic argument array
+			var elem ssa.Value
+			if al := rootAlloc(arg); al != nil {
+				allInstrs(fn, func(i2 ssa.Instruction) {
+					if st, ok := i2.(*ssa.Store); ok && rootAlloc(st.Addr) == al {
+						elem = st.Val
+					}
+				})
+			}
+			okTest := false
+			edgeFacts(cl.Block(), func(cond ssa.Value, val bool) bool {
+				op, x, y, ok := normCmp(cond, val)
+				if !ok || op != token.NEQ {
+					return true
+				}
+				for _, pair := range [][2]ssa.Value{{x, y}, {y, x}} {
+					if k, isK := constInt(pair[1]); isK && k == 0 {
+						if sc, isC := pair[0].(*ssa.Call); isC {
+							if o := calleeObjOf(sc.Common()); o != nil && o.Name() == "GetSizeBytes" && elem != nil && len(sc.Call.Args) > 0 && (sc.Call.Args[0] == elem || sameSource(sc.Call.Args[0], elem)) {
+								okTest = true
+							}
+						}
+					}
+				}
+				return !okTest
+			})
+			c.Check(okTest, name, "filter-each", c.Pos(cl.Pos()), "appended under its own non-empty test", "an element is appended to the filtered set without its own GetSizeBytes() != 0 test")
+		})
+		if n == 0 {
+			c.Fail(name, "filter-each", c.Pos(fn.Pos()), "RemoveEmptyBlob builds no filtered copy")
+		}
+	}
+	// (b) getBareFunction
+	if fn := c.Func(digestRel, "getBareFunction"); fn == nil {
+		c.Broken("digest.getBareFunction not found")
+	} else {
+		name := FuncName(fn)
+		for _, r := range returnsOf(fn) {
+			if isNilConst(r.Results[0]) {
+				continue
+			}
+			ok := dominatedByCmpDepth(r.Block(), func(op token.Token, x, y ssa.Value) bool {
+				_, isK := constInt(y)
+				return op == token.EQL && x == ssa.Value(fn.Params[0]) && isK
+			}, 2)
+			c.Check(ok, name, "function-by-enum", c.Pos(r.Pos()), "selected by one specific enum value", "a digest function is selected on a path on which the enum value was not compared equal to one specific constant (a default branch): unsupported or unknown-to-this-version functions are silently mapped to a legacy function by hash length instead of being rejected")
+		}
+	}
+}
+
+// isRangeKey: v is the key (index) extracted from a `range` over a slice that
+// go/ssa lowered to an explicit index loop (phi of -1 / +1).
+func isRangeKey(v ssa.Value) bool {
+	_, ok := v.(*ssa.Phi)
+	if ok {
+		return true
+	}
+	if bo, ok := v.(*ssa.BinOp); ok && bo.Op == token.ADD {
+		_, isPhi := bo.X.(*ssa.Phi)
+		return isPhi
+	}
+	return false
+}
